@@ -453,9 +453,9 @@ func runCase(w *vh.W, c *jcase) {
 		}
 	})
 	// Warm-up: unless the case is marked cold, one acknowledged write completes before the
-	// goroutines start, so that the cache's lazy initialisation does not race with the first
-	// concurrent writes (tsm1.Cache.init publishes its flag before installing the ring store: C09's
-	// known finding; at engine level it makes an acknowledged write invisible until restart).
+	// goroutines start; cold cases let the first concurrent writes race with the cache's lazy
+	// initialisation (tsm1.Cache.init used to publish its flag before installing the ring store,
+	// which made an acknowledged write invisible until restart; repaired in 8c4ebc52a3).
 	var warm *jop
 	if !c.Cold {
 		warm = &jop{G: 99, Op: "write", Points: []jpoint{{Series: 0, Field: 0, T: 100, V: 1000000}}}
@@ -669,9 +669,8 @@ func judge(w *vh.W, c *jcase, failure string) {
 			dels = append(dels, [2]int64{op.Inv, op.Ret})
 		}
 	}
-	if c.Cold {
-		sig = "cache-init-race-first-concurrent-writes"
-	}
+	// cold cases (no warm-up write) used to carry the signature cache-init-race-first-concurrent-writes;
+	// Cache.init is repaired (8c4ebc52a3), the shape is still generated and a failure is a VIOLATION again
 	for _, d := range dels { // known-finding shape: a delete overlapping a snapshot in real time
 		for _, s := range snaps {
 			if d[0] < s[1] && s[0] < d[1] {
@@ -786,7 +785,7 @@ func gen(w *vh.W) jcase {
 	}
 	var c jcase
 	ng := 3 + r.IntN(3)
-	c.Cold = r.IntN(10) == 0
+	c.Cold = r.IntN(4) == 0
 	var val int64
 	withDelete := r.IntN(3) == 0
 	for g := 0; g < ng; g++ {
